@@ -1,0 +1,157 @@
+// SPDX-FileCopyrightText: 2026 The Pion community <https://pion.ly>
+// SPDX-License-Identifier: MIT
+
+//go:build verif
+
+package stats
+
+// Machine-checked contracts (comment-only; read by /verif/govc, never compiled into a normal build).
+//
+// Property C19: every recording step changes exactly the counters of its own SSRC by exactly what the packet
+// contributes; everything else in the statistics is left as it was.
+//
+//@ func (*recorder).recordOutgoingRTP
+//@   requires v: v != nil
+//@   modifies nothing
+//@   ensures other_ssrc_untouched: v.header.SSRC != r.ssrc ==> result == latestStats
+//@   ensures packets: v.header.SSRC == r.ssrc ==> result.OutboundRTPStreamStats.PacketsSent == latestStats.OutboundRTPStreamStats.PacketsSent + 1
+//@   ensures bytes: v.header.SSRC == r.ssrc ==> result.OutboundRTPStreamStats.BytesSent == latestStats.OutboundRTPStreamStats.BytesSent + uint64(v.header.MarshalSize() + v.payloadLen)
+//@   ensures header_bytes: v.header.SSRC == r.ssrc ==> result.OutboundRTPStreamStats.HeaderBytesSent == latestStats.OutboundRTPStreamStats.HeaderBytesSent + uint64(v.header.MarshalSize())
+//@   ensures first_sequence: v.header.SSRC == r.ssrc ==> result.remoteInboundFirstSequenceNumberInitialized
+//@        && result.remoteInboundFirstSequenceNumber == ite(latestStats.remoteInboundFirstSequenceNumberInitialized, latestStats.remoteInboundFirstSequenceNumber, int64(v.header.SequenceNumber))
+//@   ensures nothing_else: result.InboundRTPStreamStats == latestStats.InboundRTPStreamStats && result.RemoteInboundRTPStreamStats == latestStats.RemoteInboundRTPStreamStats
+//@        && result.RemoteOutboundRTPStreamStats == latestStats.RemoteOutboundRTPStreamStats
+//@        && result.OutboundRTPStreamStats.NACKCount == latestStats.OutboundRTPStreamStats.NACKCount && result.OutboundRTPStreamStats.FIRCount == latestStats.OutboundRTPStreamStats.FIRCount
+//@        && result.OutboundRTPStreamStats.PLICount == latestStats.OutboundRTPStreamStats.PLICount
+//@        && result.inboundSequencerNumber == latestStats.inboundSequencerNumber && result.inboundFirstSequenceNumber == latestStats.inboundFirstSequenceNumber
+//@        && result.inboundHighestSequenceNumber == latestStats.inboundHighestSequenceNumber && result.lastSenderReports == latestStats.lastSenderReports
+//@        && result.lastReceiverReferenceTimes == latestStats.lastReceiverReferenceTimes
+//@
+//@ func (*recorder).recordIncomingRTP
+//@   requires v: incoming != nil
+//@   requires unwrapper: latestStats.inboundSequencerNumber.init ==> latestStats.inboundSequencerNumber.lastUnwrapped >= 0 && latestStats.inboundSequencerNumber.lastUnwrapped < (1 << 62)
+//@   requires tracked: latestStats.inboundSequenceNumberInitialized ==> latestStats.inboundSequencerNumber.init
+//@   modifies nothing
+//@   ensures other_ssrc_untouched: incoming.header.SSRC != r.ssrc ==> result == latestStats
+//@   ensures received: incoming.header.SSRC == r.ssrc ==> result.InboundRTPStreamStats.PacketsReceived == latestStats.InboundRTPStreamStats.PacketsReceived + 1
+//@   ensures first: incoming.header.SSRC == r.ssrc ==> result.inboundSequenceNumberInitialized
+//@        && (latestStats.inboundSequenceNumberInitialized ==> result.inboundFirstSequenceNumber == latestStats.inboundFirstSequenceNumber)
+//@        && (!latestStats.inboundSequenceNumberInitialized ==> result.inboundFirstSequenceNumber == result.inboundSequencerNumber.lastUnwrapped)
+//@   ensures highest: incoming.header.SSRC == r.ssrc ==> result.inboundHighestSequenceNumber ==
+//@        ite(result.inboundSequencerNumber.lastUnwrapped > latestStats.inboundHighestSequenceNumber, result.inboundSequencerNumber.lastUnwrapped, latestStats.inboundHighestSequenceNumber)
+//@   ensures unwrapped: incoming.header.SSRC == r.ssrc ==> uint16(result.inboundSequencerNumber.lastUnwrapped) == incoming.header.SequenceNumber && result.inboundSequencerNumber.init
+//@   ensures lost_is_expected_minus_received: incoming.header.SSRC == r.ssrc ==> result.InboundRTPStreamStats.PacketsLost ==
+//@        (result.inboundHighestSequenceNumber - result.inboundFirstSequenceNumber + 1) - int64(result.InboundRTPStreamStats.PacketsReceived)
+//@   ensures bytes: incoming.header.SSRC == r.ssrc ==> result.InboundRTPStreamStats.HeaderBytesReceived == latestStats.InboundRTPStreamStats.HeaderBytesReceived + uint64(incoming.header.MarshalSize())
+//@        && result.InboundRTPStreamStats.BytesReceived == latestStats.InboundRTPStreamStats.BytesReceived + uint64(incoming.header.MarshalSize() + incoming.payloadLen)
+//@   ensures last_packet_time: incoming.header.SSRC == r.ssrc ==> result.InboundRTPStreamStats.LastPacketReceivedTimestamp == incoming.ts
+//@   ensures nothing_else: result.OutboundRTPStreamStats == latestStats.OutboundRTPStreamStats && result.RemoteInboundRTPStreamStats == latestStats.RemoteInboundRTPStreamStats
+//@        && result.RemoteOutboundRTPStreamStats == latestStats.RemoteOutboundRTPStreamStats
+//@        && result.InboundRTPStreamStats.NACKCount == latestStats.InboundRTPStreamStats.NACKCount && result.InboundRTPStreamStats.FIRCount == latestStats.InboundRTPStreamStats.FIRCount
+//@        && result.InboundRTPStreamStats.PLICount == latestStats.InboundRTPStreamStats.PLICount
+//@        && result.remoteInboundFirstSequenceNumber == latestStats.remoteInboundFirstSequenceNumber && result.lastSenderReports == latestStats.lastSenderReports
+//@        && result.lastReceiverReferenceTimes == latestStats.lastReceiverReferenceTimes
+//@
+//@ # receiver reports: reception-report blocks about other SSRCs change nothing; a matching block sets the remote figures by the WebRTC-stats formulas
+//@ func (*recorder).recordIncomingRR
+//@   requires config: r.maxLastSenderReports >= 0
+//@   modifies nothing
+//@   ensures foreign_reports_change_nothing: (forall i int :: 0 <= i && i < len(reports) ==> reports[i].SSRC != r.ssrc) ==> result == latestStats
+//@   ensures local_figures_untouched: result.InboundRTPStreamStats == latestStats.InboundRTPStreamStats && result.OutboundRTPStreamStats == latestStats.OutboundRTPStreamStats
+//@        && result.RemoteOutboundRTPStreamStats == latestStats.RemoteOutboundRTPStreamStats && result.inboundSequencerNumber == latestStats.inboundSequencerNumber
+//@        && result.lastSenderReports == latestStats.lastSenderReports && result.lastReceiverReferenceTimes == latestStats.lastReceiverReferenceTimes
+//@   ensures single_matching_report: len(reports) == 1 && reports[0].SSRC == r.ssrc ==>
+//@           result.RemoteInboundRTPStreamStats.PacketsLost == int64(reports[0].TotalLost)
+//@        && result.RemoteInboundRTPStreamStats.FractionLost == float64(reports[0].FractionLost) / 256.0
+//@        && result.RemoteInboundRTPStreamStats.Jitter == float64(reports[0].Jitter) / r.clockRate
+//@   ensures remote_received: len(reports) == 1 && reports[0].SSRC == r.ssrc && latestStats.remoteInboundFirstSequenceNumberInitialized ==>
+//@        result.RemoteInboundRTPStreamStats.PacketsReceived == uint64(ite(int64(reports[0].LastSequenceNumber) - latestStats.remoteInboundFirstSequenceNumber + 1 - int64(reports[0].TotalLost) > 0,
+//@             int64(reports[0].LastSequenceNumber) - latestStats.remoteInboundFirstSequenceNumber + 1 - int64(reports[0].TotalLost), 0))
+//@   loop 1 invariant foreign: (forall i int :: 0 <= i && i < len(reports) ==> reports[i].SSRC != r.ssrc) ==> latestStats == old(latestStats)
+//@   loop 1 invariant local: latestStats.InboundRTPStreamStats == old(latestStats.InboundRTPStreamStats) && latestStats.OutboundRTPStreamStats == old(latestStats.OutboundRTPStreamStats)
+//@        && latestStats.RemoteOutboundRTPStreamStats == old(latestStats.RemoteOutboundRTPStreamStats) && latestStats.inboundSequencerNumber == old(latestStats.inboundSequencerNumber)
+//@        && latestStats.lastSenderReports == old(latestStats.lastSenderReports) && latestStats.lastReceiverReferenceTimes == old(latestStats.lastReceiverReferenceTimes)
+//@        && latestStats.remoteInboundFirstSequenceNumberInitialized == old(latestStats.remoteInboundFirstSequenceNumberInitialized) && latestStats.remoteInboundFirstSequenceNumber == old(latestStats.remoteInboundFirstSequenceNumber)
+//@   loop 1 invariant first_not_yet: rangeindex < 0 ==> latestStats == old(latestStats)
+//@   loop 1 invariant single_done: rangeindex >= 0 && len(reports) == 1 && reports[0].SSRC == r.ssrc ==>
+//@           latestStats.RemoteInboundRTPStreamStats.PacketsLost == int64(reports[0].TotalLost)
+//@        && latestStats.RemoteInboundRTPStreamStats.FractionLost == float64(reports[0].FractionLost) / 256.0
+//@        && latestStats.RemoteInboundRTPStreamStats.Jitter == float64(reports[0].Jitter) / r.clockRate
+//@        && (old(latestStats.remoteInboundFirstSequenceNumberInitialized) ==>
+//@             latestStats.RemoteInboundRTPStreamStats.PacketsReceived == uint64(ite(int64(reports[0].LastSequenceNumber) - old(latestStats.remoteInboundFirstSequenceNumber) + 1 - int64(reports[0].TotalLost) > 0,
+//@             int64(reports[0].LastSequenceNumber) - old(latestStats.remoteInboundFirstSequenceNumber) + 1 - int64(reports[0].TotalLost), 0)))
+//@   loop 2 invariant idx: i < len(latestStats.lastSenderReports)
+//@   loop 2 invariant inner: latestStats.InboundRTPStreamStats == old(latestStats.InboundRTPStreamStats) && latestStats.OutboundRTPStreamStats == old(latestStats.OutboundRTPStreamStats)
+//@        && latestStats.RemoteOutboundRTPStreamStats == old(latestStats.RemoteOutboundRTPStreamStats) && latestStats.inboundSequencerNumber == old(latestStats.inboundSequencerNumber)
+//@        && latestStats.lastSenderReports == old(latestStats.lastSenderReports) && latestStats.lastReceiverReferenceTimes == old(latestStats.lastReceiverReferenceTimes)
+//@        && latestStats.remoteInboundFirstSequenceNumberInitialized == old(latestStats.remoteInboundFirstSequenceNumberInitialized) && latestStats.remoteInboundFirstSequenceNumber == old(latestStats.remoteInboundFirstSequenceNumber)
+//@
+//@ # extended reports: only DLRR sub-blocks addressed to this recorder's SSRC may change anything (the remote-outbound round-trip figures)
+//@ pred noDLRRForUs(r *recorder, pkt *rtcp.ExtendedReport) := forall i int, j int :: 0 <= i && i < len(pkt.Reports) && typeis(pkt.Reports[i], "*rtcp.DLRRReportBlock")
+//@        && 0 <= j && j < len(as(pkt.Reports[i], "*rtcp.DLRRReportBlock").Reports) ==> as(pkt.Reports[i], "*rtcp.DLRRReportBlock").Reports[j].SSRC != r.ssrc
+//@ pred xrLocal(a internalStats, b internalStats) := a.InboundRTPStreamStats == b.InboundRTPStreamStats && a.OutboundRTPStreamStats == b.OutboundRTPStreamStats
+//@        && a.RemoteInboundRTPStreamStats == b.RemoteInboundRTPStreamStats && a.inboundSequencerNumber == b.inboundSequencerNumber
+//@        && a.lastSenderReports == b.lastSenderReports && a.lastReceiverReferenceTimes == b.lastReceiverReferenceTimes
+//@        && a.RemoteOutboundRTPStreamStats.PacketsSent == b.RemoteOutboundRTPStreamStats.PacketsSent && a.RemoteOutboundRTPStreamStats.BytesSent == b.RemoteOutboundRTPStreamStats.BytesSent
+//@        && a.RemoteOutboundRTPStreamStats.ReportsSent == b.RemoteOutboundRTPStreamStats.ReportsSent
+//@
+//@ func (*recorder).recordIncomingXR
+//@   requires config: r.maxLastReceiverReferenceTimes >= 0
+//@   modifies nothing
+//@   ensures foreign_dlrr_changes_nothing: noDLRRForUs(r, pkt) ==> result == latestStats
+//@   ensures only_rtt_figures_change: xrLocal(result, latestStats)
+//@   loop 1 invariant foreign: noDLRRForUs(r, pkt) ==> latestStats == old(latestStats)
+//@   loop 1 invariant local: xrLocal(latestStats, old(latestStats))
+//@   loop 2 invariant foreign: noDLRRForUs(r, pkt) ==> latestStats == old(latestStats)
+//@   loop 2 invariant local: xrLocal(latestStats, old(latestStats))
+//@   loop 3 invariant idx: i < len(latestStats.lastReceiverReferenceTimes)
+//@   loop 3 invariant foreign: noDLRRForUs(r, pkt) ==> latestStats == old(latestStats)
+//@   loop 3 invariant local: xrLocal(latestStats, old(latestStats))
+//@
+//@ # is the RTCP packet addressed to this SSRC? (pion/rtcp's DestinationSSRC(), membership by slices.Contains)
+//@ func contains
+//@   trusted slices.Contains: membership test of a slice
+//@   functional
+//@   modifies nothing
+//@
+//@ # incoming RTCP: local (inbound / outbound-RTP / sequence tracking) figures are never touched; a compound of one
+//@ # feedback packet counts it exactly when it is addressed to and about this SSRC
+//@ func (*recorder).recordIncomingRTCP
+//@   requires in: incoming != nil && r.maxLastSenderReports >= 0 && r.maxLastReceiverReferenceTimes >= 0
+//@   modifies nothing
+//@   ensures local_untouched: result.InboundRTPStreamStats == latestStats.InboundRTPStreamStats && result.inboundSequencerNumber == latestStats.inboundSequencerNumber
+//@        && result.OutboundRTPStreamStats.PacketsSent == latestStats.OutboundRTPStreamStats.PacketsSent && result.OutboundRTPStreamStats.BytesSent == latestStats.OutboundRTPStreamStats.BytesSent
+//@        && result.OutboundRTPStreamStats.HeaderBytesSent == latestStats.OutboundRTPStreamStats.HeaderBytesSent
+//@        && result.lastSenderReports == latestStats.lastSenderReports && result.lastReceiverReferenceTimes == latestStats.lastReceiverReferenceTimes
+//@   ensures empty_compound: len(incoming.pkts) == 0 ==> result == latestStats
+//@   ensures single_nack: len(incoming.pkts) == 1 && typeis(incoming.pkts[0], "*rtcp.TransportLayerNack") ==> result.OutboundRTPStreamStats.NACKCount ==
+//@        latestStats.OutboundRTPStreamStats.NACKCount + ite(contains(incoming.pkts[0].DestinationSSRC(), r.ssrc) && as(incoming.pkts[0], "*rtcp.TransportLayerNack").MediaSSRC == r.ssrc, uint32(1), uint32(0))
+//@        && result.OutboundRTPStreamStats.PLICount == latestStats.OutboundRTPStreamStats.PLICount && result.OutboundRTPStreamStats.FIRCount == latestStats.OutboundRTPStreamStats.FIRCount
+//@   ensures single_pli: len(incoming.pkts) == 1 && typeis(incoming.pkts[0], "*rtcp.PictureLossIndication") ==> result.OutboundRTPStreamStats.PLICount ==
+//@        latestStats.OutboundRTPStreamStats.PLICount + ite(contains(incoming.pkts[0].DestinationSSRC(), r.ssrc) && as(incoming.pkts[0], "*rtcp.PictureLossIndication").MediaSSRC == r.ssrc, uint32(1), uint32(0))
+//@        && result.OutboundRTPStreamStats.NACKCount == latestStats.OutboundRTPStreamStats.NACKCount && result.OutboundRTPStreamStats.FIRCount == latestStats.OutboundRTPStreamStats.FIRCount
+//@   ensures single_fir: len(incoming.pkts) == 1 && typeis(incoming.pkts[0], "*rtcp.FullIntraRequest") ==> result.OutboundRTPStreamStats.FIRCount ==
+//@        latestStats.OutboundRTPStreamStats.FIRCount + ite(contains(incoming.pkts[0].DestinationSSRC(), r.ssrc) && as(incoming.pkts[0], "*rtcp.FullIntraRequest").MediaSSRC == r.ssrc, uint32(1), uint32(0))
+//@        && result.OutboundRTPStreamStats.NACKCount == latestStats.OutboundRTPStreamStats.NACKCount && result.OutboundRTPStreamStats.PLICount == latestStats.OutboundRTPStreamStats.PLICount
+//@   ensures single_sr: len(incoming.pkts) == 1 && typeis(incoming.pkts[0], "*rtcp.SenderReport") && contains(incoming.pkts[0].DestinationSSRC(), r.ssrc) ==>
+//@        result.RemoteOutboundRTPStreamStats.PacketsSent == uint64(as(incoming.pkts[0], "*rtcp.SenderReport").PacketCount)
+//@        && result.RemoteOutboundRTPStreamStats.BytesSent == uint64(as(incoming.pkts[0], "*rtcp.SenderReport").OctetCount)
+//@        && result.RemoteOutboundRTPStreamStats.ReportsSent == latestStats.RemoteOutboundRTPStreamStats.ReportsSent + 1
+//@   loop 1 invariant local: latestStats.InboundRTPStreamStats == old(latestStats.InboundRTPStreamStats) && latestStats.inboundSequencerNumber == old(latestStats.inboundSequencerNumber)
+//@        && latestStats.OutboundRTPStreamStats.PacketsSent == old(latestStats.OutboundRTPStreamStats.PacketsSent) && latestStats.OutboundRTPStreamStats.BytesSent == old(latestStats.OutboundRTPStreamStats.BytesSent)
+//@        && latestStats.OutboundRTPStreamStats.HeaderBytesSent == old(latestStats.OutboundRTPStreamStats.HeaderBytesSent)
+//@        && latestStats.lastSenderReports == old(latestStats.lastSenderReports) && latestStats.lastReceiverReferenceTimes == old(latestStats.lastReceiverReferenceTimes)
+//@   loop 1 invariant first_not_yet: rangeindex < 0 ==> latestStats == old(latestStats)
+//@   loop 1 invariant single_nack: rangeindex >= 0 && len(incoming.pkts) == 1 && typeis(incoming.pkts[0], "*rtcp.TransportLayerNack") ==> latestStats.OutboundRTPStreamStats.NACKCount ==
+//@        old(latestStats.OutboundRTPStreamStats.NACKCount) + ite(contains(incoming.pkts[0].DestinationSSRC(), r.ssrc) && as(incoming.pkts[0], "*rtcp.TransportLayerNack").MediaSSRC == r.ssrc, uint32(1), uint32(0))
+//@        && latestStats.OutboundRTPStreamStats.PLICount == old(latestStats.OutboundRTPStreamStats.PLICount) && latestStats.OutboundRTPStreamStats.FIRCount == old(latestStats.OutboundRTPStreamStats.FIRCount)
+//@   loop 1 invariant single_pli: rangeindex >= 0 && len(incoming.pkts) == 1 && typeis(incoming.pkts[0], "*rtcp.PictureLossIndication") ==> latestStats.OutboundRTPStreamStats.PLICount ==
+//@        old(latestStats.OutboundRTPStreamStats.PLICount) + ite(contains(incoming.pkts[0].DestinationSSRC(), r.ssrc) && as(incoming.pkts[0], "*rtcp.PictureLossIndication").MediaSSRC == r.ssrc, uint32(1), uint32(0))
+//@        && latestStats.OutboundRTPStreamStats.NACKCount == old(latestStats.OutboundRTPStreamStats.NACKCount) && latestStats.OutboundRTPStreamStats.FIRCount == old(latestStats.OutboundRTPStreamStats.FIRCount)
+//@   loop 1 invariant single_fir: rangeindex >= 0 && len(incoming.pkts) == 1 && typeis(incoming.pkts[0], "*rtcp.FullIntraRequest") ==> latestStats.OutboundRTPStreamStats.FIRCount ==
+//@        old(latestStats.OutboundRTPStreamStats.FIRCount) + ite(contains(incoming.pkts[0].DestinationSSRC(), r.ssrc) && as(incoming.pkts[0], "*rtcp.FullIntraRequest").MediaSSRC == r.ssrc, uint32(1), uint32(0))
+//@        && latestStats.OutboundRTPStreamStats.NACKCount == old(latestStats.OutboundRTPStreamStats.NACKCount) && latestStats.OutboundRTPStreamStats.PLICount == old(latestStats.OutboundRTPStreamStats.PLICount)
+//@   loop 1 invariant single_sr: rangeindex >= 0 && len(incoming.pkts) == 1 && typeis(incoming.pkts[0], "*rtcp.SenderReport") && contains(incoming.pkts[0].DestinationSSRC(), r.ssrc) ==>
+//@        latestStats.RemoteOutboundRTPStreamStats.PacketsSent == uint64(as(incoming.pkts[0], "*rtcp.SenderReport").PacketCount)
+//@        && latestStats.RemoteOutboundRTPStreamStats.BytesSent == uint64(as(incoming.pkts[0], "*rtcp.SenderReport").OctetCount)
+//@        && latestStats.RemoteOutboundRTPStreamStats.ReportsSent == old(latestStats.RemoteOutboundRTPStreamStats.ReportsSent) + 1
